@@ -60,3 +60,11 @@ Definition count_distinct_pos (ts : list tuple) : nat := length (dedup qc_eqb (m
 Definition count_distinct_vec (ts : list tuple) : nat := length (dedup oq_eqb (map t_vec ts)).
 Definition occurrences_pos (p : Qc) (ts : list tuple) : nat := length (filter (fun t => qc_eqb (t_pos t) p) ts).
 Definition occurrences_vec (v : option Qc) (ts : list tuple) : nat := length (filter (fun t => oq_eqb (t_vec t) v) ts).
+
+(** congruence of a new file [f] with the reference input [r] (the first accepted file): same matrix
+    size, pixel spacing and orientation within 5e-5 (plus numpy's relative 1e-5) *)
+Definition spec_atol : Q := (5 # 100000)%Q.
+Definition close_spec (a b : Q) : Prop := (Qabs (a - b) <= spec_atol + np_rtol * Qabs b)%Q.
+Definition congruent_spec (r f : file) : Prop :=
+  Forall2 close_spec (f_ps f) (f_ps r) /\ Forall2 close_spec (f_iop f) (f_iop r) /\
+  f_rows f = f_rows r /\ f_cols f = f_cols r.
